@@ -61,7 +61,7 @@ package core
 //@ func loadFromFlagSet$1
 //@   prop C20
 //@   ensures [secret-on-the-command-line-is-an-error] flag.Changed && (strings.HasSuffix(flag.Name, "token") || strings.HasSuffix(flag.Name, "password")) ==> !isNilIface(err)
-//@   ensures [an-earlier-verdict-is-kept] !isNilIface(old(err)) ==> !isNilIface(err)
+//@   ensures [an-earlier-verdict-is-kept] isNilIface(old(err)) || !isNilIface(err)
 //@ func (*pflag.FlagSet).VisitAll
 //@   trusted
 //@   summary once
